@@ -30,6 +30,7 @@ ASSUMPTIONS = [
     "a reception = (receiver serial 0..4, unique id carried in the metadata's nanoseconds field): neighbouring receptions often come from the same receiver, as in production; "
     "receivers 1 and 3 also carry a gnss_timestamp one second ahead of / behind the record's timestamp (a receiver clock is not the property's clock)",
     "records still open when the input closes are not required (their window never closed)",
+    "a third of the longer histories run with an output channel of 1 or 3 records, drained by the driver whenever the task stops making progress",
     "decode1090 -i/-d (the second copy of the algorithm, with a final flush) is observed from outside: JSON lines in, JSON lines out; "
     "timestamps there have at most 4 decimals so that every JSON reader parses them to the same double",
     "system level: the unmodified jet1090 executable is fed the same frames on 2-3 loopback TCP feeds (Beast format); records on stdout "
@@ -193,7 +194,9 @@ def judge(window, ins, outs, events, decodable):
 
 
 def scenario_of(window, ins, tag):
-    lines = [{"reset": window, "tag": tag}]
+    # one history in three runs with an output channel of 1 or 3 records: the task must wait for its consumer (as behind
+    # the main loop's bounded channel), never drop what does not fit
+    lines = [{"reset": window, "tag": tag, "cap": [100000, 1, 3][(len(ins) + int(window)) % 3] if len(ins) > 6 else 100000}]
     for frame, ts, rid in ins:
         # receptions of one receiver share its serial (as in production); the unique reception id travels separately
         line = {"frame": frame, "ts": ts, "id": rid, "rx": rid % 8}
